@@ -28,6 +28,9 @@ thread_local! {
     pub static SERVER_FROM_FD: std::cell::Cell<bool> = std::cell::Cell::new(false);
     /// signal the kill switch before it is handed to the server (one-shot)
     pub static KILL_PRESIGNALLED: std::cell::Cell<bool> = std::cell::Cell::new(false);
+    /// the EventFd handed to `add_kill_switch` is descriptor number 0 (a process started with
+    /// stdin closed gets that number for the first descriptor it opens)
+    pub static KILL_ON_FD0: std::cell::Cell<bool> = std::cell::Cell::new(false);
 }
 
 /// draw the construction variant of the next world(s) from the case bytes
@@ -90,6 +93,8 @@ pub struct Client {
     pub connected_at_poll: usize,
     pub yielded: Vec<usize>, // j's yielded, in order
     pub connect_order: usize,
+    /// does not read its socket during `settle` (only when the history asks it to)
+    pub lazy: bool,
 }
 
 pub struct Outstanding {
@@ -129,6 +134,9 @@ pub struct World {
     pub yield_faults: Vec<String>,
     pub respond_results: Vec<(usize, usize, bool)>,
     pub sndbuf_shrunk: bool,
+    /// descriptor 0 of the process, parked while the kill switch occupies that number
+    pub saved0: Option<RawFd>,
+    pub fd0_taken: bool,
     /// length of a pad header the next composed request gets (used to hit exact total sizes)
     pub next_pad: usize,
 }
@@ -195,6 +203,21 @@ pub struct ReqSpec {
 impl World {
     pub fn new(nslots: usize, with_kill: bool, logging: bool) -> Result<World, String> {
         // everything the harness owns is allocated before the base snapshot
+        let mut saved0: Option<RawFd> = None;
+        let mut kill_fd0: Option<EventFd> = None;
+        if with_kill && KILL_ON_FD0.with(|c| c.get()) {
+            let d = unsafe { libc::fcntl(0, libc::F_DUPFD_CLOEXEC, 3) };
+            if d >= 0 {
+                saved0 = Some(d);
+            }
+            unsafe { libc::close(0) };
+            let k = EventFd::new(EFD_NONBLOCK).map_err(|e| e.to_string())?;
+            if k.as_raw_fd() != 0 {
+                return Err(format!("kill switch expected on descriptor 0, got {}", k.as_raw_fd()));
+            }
+            kill_fd0 = Some(k);
+        }
+        let kill_on_0 = kill_fd0.is_some();
         let devnull = unsafe { libc::open(b"/dev/null\0".as_ptr() as *const libc::c_char, libc::O_RDWR | libc::O_CLOEXEC) };
         if devnull < 0 {
             return Err("open /dev/null".into());
@@ -225,12 +248,20 @@ impl World {
                 connected_at_poll: 0,
                 yielded: vec![],
                 connect_order: usize::MAX,
+                lazy: false,
             });
         }
-        let kill_h = if with_kill { Some(EventFd::new(EFD_NONBLOCK).map_err(|e| e.to_string())?) } else { None };
-        let kill_for_server = match &kill_h {
-            Some(k) => Some(k.try_clone().map_err(|e| e.to_string())?),
-            None => None,
+        let (kill_h, kill_for_server) = match kill_fd0 {
+            // the object on descriptor 0 goes to the server; the harness signals through a clone
+            Some(k0) => (Some(k0.try_clone().map_err(|e| e.to_string())?), Some(k0)),
+            None => {
+                let kill_h = if with_kill { Some(EventFd::new(EFD_NONBLOCK).map_err(|e| e.to_string())?) } else { None };
+                let kfs = match &kill_h {
+                    Some(k) => Some(k.try_clone().map_err(|e| e.to_string())?),
+                    None => None,
+                };
+                (kill_h, kfs)
+            }
         };
         let presignalled = KILL_PRESIGNALLED.with(|c| c.replace(false)) && kill_h.is_some();
         if presignalled {
@@ -293,6 +324,8 @@ impl World {
             respond_results: vec![],
             sndbuf_shrunk: false,
             next_pad: 0,
+            saved0,
+            fd0_taken: kill_on_0,
         })
     }
 
@@ -785,7 +818,9 @@ impl World {
                 }
                 for c in 0..self.clients.len() {
                     if self.clients[c].state == CState::Connected {
-                        self.read_client(c, usize::MAX);
+                        if !self.clients[c].lazy {
+                            self.read_client(c, usize::MAX);
+                        }
                         self.flush_client(c);
                     }
                 }
@@ -802,7 +837,7 @@ impl World {
                 }
             }
             for c in 0..self.clients.len() {
-                if self.clients[c].state == CState::Connected && self.read_client(c, usize::MAX) > 0 {
+                if self.clients[c].state == CState::Connected && !self.clients[c].lazy && self.read_client(c, usize::MAX) > 0 {
                     moved = true;
                 }
             }
@@ -843,6 +878,15 @@ impl Drop for World {
             unsafe { libc::close(c.fd) };
         }
         unsafe { libc::close(self.devnull) };
+        if self.fd0_taken {
+            // the server has closed the switch on descriptor 0; put back what was there
+            if let Some(d) = self.saved0.take() {
+                unsafe {
+                    libc::dup2(d, 0);
+                    libc::close(d);
+                }
+            }
+        }
         let _ = std::fs::remove_file(&self.path);
     }
 }
